@@ -11,13 +11,13 @@ UTF-8 bytes, the empty string is `-`):
   spec <info>                             → base64(SHA-1(UTF-8(verStringSpec info)))      (XEP-0115 §5.1)
   str  <info>                             → hex of UTF-8(verStringCode info)              (debugging aid)
   caps <node> <querynode> <cat> <type> <name> B<n> feat{n} E<k> ext{k} <form>
-                                          → <advertised ver>|<ver of the answered info set, or not-found>
+                                          → <advertised ver>|<XEP hash of the answered info set as read from the wire, or not-found>
   config <node> <cat> <type> <name> B<n> feat{n} E<k> ext{k} <form>     (stateful: the configuration from now on) → ok
   publish (fresh|derived)                 setClientPresence on a connected client → caps of the emitted presence
   connect (fresh|derived)                 connectToServer: recompute + store, nothing sent → -
   emit (session|disconnect|muc)           a site sending the stored presence → caps of the emitted presence
                                           caps := <hex node>|<ver>  or  no-caps (empty capabilities node)
-  query <node>                            → ver of the answered info set, or not-found
+  query <node>                            → XEP hash of the answered info set as read from the wire, or not-found
   info := I<n> (cat type lang name){n} F<m> feat{m} <form>
   form := X- | X<k> (key kind <c> value{c}){k}         kind := t (QString; count 0 = null string) | l (QStringList) | b (bool: 31 / 30)
   ext  := F<m> feat{m} I<n> (cat type lang name){n}
@@ -228,7 +228,7 @@ def stepLine (s : ClientSt String) (line : String) : ClientSt String × String :
     match pCaps ts with
     | some ((c, q), []) =>
       let answered := match answeredInfo c q with
-        | some i => ver sha1b64 i
+        | some i => sha1b64 (verStringSpec i)
         | none => "not-found"
       (s, advertisedVer sha1b64 c ++ "|" ++ answered)
     | _ => (s, "bad-op")
